@@ -80,8 +80,13 @@ struct SimCode {
     if (!r) { char b[160]; snprintf(b, sizeof b, "mem_protect(%p, %zu) is not inside one live code region of this context", a, len); violate("code_protect_foreign", prot == PROT_WRITE_EXEC ? "write" : "exec", b); return -1; }
     uint8_t *ps = (uint8_t *) ((uintptr_t) a & ~(uintptr_t) 4095); size_t pl = (((uintptr_t) a + len + 4095) & ~(uintptr_t) 4095) - (uintptr_t) ps;
     if (prot == PROT_WRITE_EXEC) { n_protect_w++; r->windows++; r->open = true; if (pl > 4096 && len < r->len) multi_page_windows++; return mprotect(ps, pl, PROT_READ | PROT_WRITE | PROT_EXEC); }
-    n_protect_x++; r->open = false; return mprotect(ps, pl, PROT_READ | PROT_EXEC);
+    n_protect_x++; r->open = false;
+    if (hash_code) trace.bytes(a, len);  // the bytes just published (tasksim: generated machine code must be identical solo and interleaved)
+    return mprotect(ps, pl, PROT_READ | PROT_EXEC);
   }
+  bool hash_code = false;
+  // tasksim: while the owning task is switched out its code memory is inaccessible to everybody else
+  void set_accessible(bool on) { for (auto &r : regs) if (r.live) mprotect(r.addr, r.len, !on ? PROT_NONE : r.open ? PROT_READ | PROT_WRITE | PROT_EXEC : PROT_READ | PROT_EXEC); }
   size_t live_regions() const { size_t n = 0; for (auto &r : regs) if (r.live) n++; return n; }
   void audit(bool expect_empty) {
     if (expect_empty && live_regions()) { char b[120]; snprintf(b, sizeof b, "%zu mapped code regions not returned by mem_unmap after finish", live_regions()); violate("code_leak", "finish", b); }
